@@ -2,14 +2,15 @@ SPECIFICATION MCSpec
 CONSTANTS
  BNErrs = {"bnval", "bnptr"}
  Variant = "coded"
- MCTypes = {"sync_contribution", "prepare_sync_contribution", "sync_message"}
+ MCTypes = {"aggregator", "prepare_aggregator"}
+ MCMain = "attester"
  MCIncl = {"proposer"}
  MCPKs = {"a"}
  MCErrs = {"nil", "other"}
  MCRoots = {"x", "y"}
- MCN = 1
+ MCN = 2
+ MCSteps = {1, 7, 10}
  MaxCalls = 3
-INVARIANTS SuccessIffFinal StuckStep ReasonOfStep Dependency Participation AnalysedOnce
+INVARIANTS SuccessIffFinal StuckStep ReasonOfStep Dependency Participation AnalysedOnce AnalysedHadDeadline
 PROPERTIES MCOnlyAtDeadline MCLateDropped
-VIEW View
 CHECK_DEADLOCK FALSE
